@@ -1,141 +1,319 @@
 import PyxModel.Interp.Spec
 import Proofs.InterpCalls
+import Proofs.InterpEffects
 
 /-!
-  The value of the executed return, through any nesting.
+  The value of the executed return, through any nesting — with the witness TIED to the body.
 
   `RetInv`: whenever a statement — however deeply the `return` sits in blocks, ifs, elifs, loops — completes with the
-  outcome `ret`, a "return event" happened (some expression was evaluated to a value `v` and the register set to `v`), and
-  everything that ran AFTER the event (only the unwinding: leaving blocks) changed neither the state nor the register.
-  Together with `presRet` (no `ret` outcome ⇒ register untouched) this pins the result of an invocation down:
-  it is the value of the one executed `return <expr>`, else nothing.
+  outcome `ret`, there is a statement `return e` that OCCURS in it (`Occ`, the sub-statement relation), whose
+  expression `e` was evaluated in a configuration `c0` that is LINKED to the configuration the statement started in
+  (`Rlink`: same walker kind, same parameters, same `self` — the same frame identity — and a state reached from the
+  start state by a history of successful state operations), to the value `v` that is in the register at the end; and
+  after that evaluation only unwinding happened (the final state is the state right after the evaluation).
 -/
 set_option linter.unusedSectionVars false
+set_option linter.unusedVariables false
 namespace Pyx.Interp
 open M
 
-/-- an expression was evaluated to `v` and the return register set to `v` -/
-def RetEvent (rec : Oracle) (c1 : Cfg) : Prop :=
-  ∃ e c0 v cE, rec.eval e c0 = some (.ok (v, cE)) ∧ c1 = { cE with fr := { cE.fr with ret := v } }
+/-! ### sub-statements -/
 
-/-- same state, same register -/
-def SameSR (c1 c' : Cfg) : Prop := c'.st = c1.st ∧ c'.fr.ret = c1.fr.ret
+/-- `t` occurs in `s`: `s` itself, or (recursively) a statement of one of its blocks -/
+inductive Occ (t : Stmt) : Stmt → Prop
+  | self : Occ t t
+  | ifThen {c : Expr} {thn : Block} {elifs : List (Expr × Block)} {els : Option Block} {s : Stmt} :
+      s ∈ thn → Occ t s → Occ t (.ifS c thn elifs els)
+  | ifElif {c : Expr} {thn : Block} {elifs : List (Expr × Block)} {els : Option Block} {p : Expr × Block} {s : Stmt} :
+      p ∈ elifs → s ∈ p.2 → Occ t s → Occ t (.ifS c thn elifs els)
+  | ifElse {c : Expr} {thn : Block} {elifs : List (Expr × Block)} {b : Block} {s : Stmt} :
+      s ∈ b → Occ t s → Occ t (.ifS c thn elifs (some b))
+  | whileB {c : Expr} {body : Block} {s : Stmt} : s ∈ body → Occ t s → Occ t (.whileS c body)
+  | forB {v setv : String} {body : Block} {s : Stmt} : s ∈ body → Occ t s → Occ t (.forEach v setv body)
 
-def RetInv (rec : Oracle) (m : M Out) : Prop :=
-  ∀ c o c', m c = some (.ok (o, c')) → o = .ret → ∃ c1, RetEvent rec c1 ∧ SameSR c1 c'
+/-- `t` occurs in the block `b` -/
+def OccB (t : Stmt) (b : Block) : Prop := ∃ s ∈ b, Occ t s
 
-theorem retInv_pure {rec : Oracle} (o : Out) (ho : o ≠ .ret) : RetInv rec (pure o) := by
-  intro c o' c' h hr
-  have : M.ret' o c = some (.ok (o', c')) := h
-  simp [M.ret'] at this
-  exact absurd (this.1.trans hr) ho
+/-! ### the link between two configurations of one activation -/
 
-theorem retInv_fail {rec : Oracle} (msg : String) : RetInv rec (fail msg) := by
-  intro c o c' h; simp [fail] at h
+/-- the frame identity: walker kind, parameters, self (variables and the return register may differ) -/
+def Rid (c c' : Cfg) : Prop := c'.fr.kind = c.fr.kind ∧ c'.fr.params = c.fr.params ∧ c'.fr.self = c.fr.self
 
-theorem retInv_bind {α : Type} {rec : Oracle} (m : M α) {f : α → M Out} (hf : ∀ a, RetInv rec (f a)) :
-    RetInv rec (m >>= f) := by
-  intro c o c' h hr
-  obtain ⟨a, c1, _, h2⟩ := bind_ok_inv h
-  exact hf a c1 o c' h2 hr
+/-- same activation, and the state of `c'` is reached from the state of `c` by a history of state operations -/
+def Rlink (C : Ctx) (c c' : Cfg) : Prop := Rid c c' ∧ Reach C c.st c'.st
 
-theorem retInv_seq {rec : Oracle} {m : M Out} {g : Out → M Out} (hm : RetInv rec m)
-    (hg : ∀ o, o ≠ .ret → RetInv rec (g o))
-    (hret : ∀ c1 o c', g .ret c1 = some (.ok (o, c')) → SameSR c1 c') : RetInv rec (m >>= g) := by
-  intro c o c' h hr
-  obtain ⟨o1, c1, h1, h2⟩ := bind_ok_inv h
-  by_cases ho1 : o1 = .ret
-  · subst ho1
-    obtain ⟨ce, hev, hs⟩ := hm c .ret c1 h1 rfl
-    have hs2 := hret c1 o c' h2
-    exact ⟨ce, hev, hs2.1.trans hs.1, hs2.2.trans hs.2⟩
-  · exact hg o1 ho1 c1 o c' h2 hr
-
-theorem sameSR_pure {c1 c' : Cfg} {o o' : Out} (h : (pure o : M Out) c1 = some (.ok (o', c'))) : SameSR c1 c' := by
-  have : M.ret' o c1 = some (.ok (o', c')) := h
-  simp [M.ret'] at this
-  rw [← this.2]; exact ⟨rfl, rfl⟩
+theorem Rlink_po (C : Ctx) : PreOrder (Rlink C) :=
+  ⟨fun c => ⟨⟨rfl, rfl, rfl⟩, (reach_ops C).refl _⟩,
+   fun a b c h1 h2 => ⟨⟨h2.1.1.trans h1.1.1, h2.1.2.1.trans h1.1.2.1, h2.1.2.2.trans h1.1.2.2⟩,
+     (reach_ops C).trans _ _ _ h1.2 h2.2⟩⟩
 
 section
-variable {C : Ctx} {r : Oracle} (hs : ∀ s, RetInv r (r.exec s))
-include hs
+variable {C : Ctx}
 
-theorem retInv_execList : ∀ l, RetInv r (execList r l)
+theorem NL {α : Type} {m : M α} (h : Neutral m) : Pres (Rlink C) m := pres_of_neutral (Rlink_po C) h
+
+/-- frame kept entirely (`Rfr` / `StateOnly`) + the state relation -/
+theorem rl_of_rfr {α : Type} {m : M α} (h1 : Pres Rfr m) (h2 : Pres (RS (Reach C)) m) : Pres (Rlink C) m := by
+  intro c a c' hc
+  have hf := h1 c a c' hc
+  unfold Rfr at hf
+  exact ⟨by rw [Rid, hf]; exact ⟨rfl, rfl, rfl⟩, h2 c a c' hc⟩
+
+theorem rl_setEnv (env : Env) : Pres (Rlink C) (setEnv env) := by
+  intro c a c' h
+  simp [setEnv] at h; rw [← h]; exact ⟨⟨rfl, rfl, rfl⟩, (reach_ops C).refl _⟩
+
+theorem rl_setRet (v : Val) : Pres (Rlink C) (setRet v) := by
+  intro c a c' h
+  simp [setRet] at h; rw [← h]; exact ⟨⟨rfl, rfl, rfl⟩, (reach_ops C).refl _⟩
+
+theorem rl_install (x : String) (v : Val) : Pres (Rlink C) (install x v) := by
+  unfold install
+  apply pres_bind (Rlink_po C) (NL neutral_getFr); intro _
+  exact rl_setEnv _
+
+theorem rl_pushBlock : Pres (Rlink C) pushBlock := by
+  unfold pushBlock
+  apply pres_bind (Rlink_po C) (NL neutral_getFr); intro _
+  exact rl_setEnv _
+
+theorem rl_popBlock : Pres (Rlink C) popBlock := by
+  unfold popBlock
+  apply pres_bind (Rlink_po C) (NL neutral_getFr); intro _
+  exact rl_setEnv _
+
+theorem rl_modifySt {f : State → Except Err State} (hf : ∀ st st', f st = .ok st' → Reach C st st') :
+    Pres (Rlink C) (modifySt f) :=
+  rl_of_rfr (fun c a c' h => stateOnly_modifySt f c a c' h) (rs_modifySt (reach_ops C) hf)
+
+theorem rl_modifyGet {α : Type} {f : State → Except Err (α × State)}
+    (hf : ∀ st a st', f st = .ok (a, st') → Reach C st st') : Pres (Rlink C) (M.modifyGet f) :=
+  rl_of_rfr (fun c a c' h => stateOnly_modifyGet f c a c' h) (rs_modifyGet (reach_ops C) hf)
+
+end
+
+/-! ### the invariant -/
+
+/-- `In t`: the statements that count as "occurring" in what `m` executes -/
+def RetInv (C : Ctx) (rec : Oracle) (In : Stmt → Prop) (m : M Out) : Prop :=
+  ∀ c o c', m c = some (.ok (o, c')) →
+    Rlink C c c' ∧
+    (o = .ret → ∃ e c0 v cE, In (.ret (some e)) ∧ Rlink C c c0 ∧ rec.eval e c0 = some (.ok (v, cE)) ∧
+      c'.st = cE.st ∧ c'.fr.ret = v)
+
+section
+variable {C : Ctx} {rec : Oracle}
+
+theorem retInv_weaken {In In' : Stmt → Prop} (h : ∀ t, In t → In' t) {m : M Out} (hm : RetInv C rec In m) :
+    RetInv C rec In' m := by
+  intro c o c' hc
+  obtain ⟨hl, hev⟩ := hm c o c' hc
+  refine ⟨hl, fun ho => ?_⟩
+  obtain ⟨e, c0, v, cE, hin, h1, h2, h3, h4⟩ := hev ho
+  exact ⟨e, c0, v, cE, h _ hin, h1, h2, h3, h4⟩
+
+theorem retInv_pure {In : Stmt → Prop} (o : Out) (ho : o ≠ .ret) : RetInv C rec In (pure o) := by
+  intro c o' c' h
+  have : M.ret' o c = some (.ok (o', c')) := h
+  simp [M.ret'] at this
+  obtain ⟨rfl, rfl⟩ := this
+  exact ⟨(Rlink_po C).refl _, fun hr => absurd hr ho⟩
+
+theorem retInv_fail {In : Stmt → Prop} (msg : String) : RetInv C rec In (fail msg) := by
+  intro c o c' h; simp [fail] at h
+
+theorem retInv_bind {α : Type} {In : Stmt → Prop} {m : M α} {f : α → M Out} (hm : Pres (Rlink C) m)
+    (hf : ∀ a, RetInv C rec In (f a)) : RetInv C rec In (m >>= f) := by
+  intro c o c' h
+  obtain ⟨a, c1, h1, h2⟩ := bind_ok_inv h
+  have l1 := hm c a c1 h1
+  obtain ⟨l2, hev⟩ := hf a c1 o c' h2
+  refine ⟨(Rlink_po C).trans _ _ _ l1 l2, fun ho => ?_⟩
+  obtain ⟨e, c0, v, cE, hin, hl0, he, hs, hr⟩ := hev ho
+  exact ⟨e, c0, v, cE, hin, (Rlink_po C).trans _ _ _ l1 hl0, he, hs, hr⟩
+
+theorem retInv_of_link {α : Type} {In : Stmt → Prop} {m : M α} (o : Out) (ho : o ≠ .ret) (h : Pres (Rlink C) m) :
+    RetInv C rec In (m >>= fun _ => pure o) :=
+  retInv_bind h (fun _ => retInv_pure o ho)
+
+/-- after a statement: continue with `g`; after `return` only unwind -/
+theorem retInv_seq {In : Stmt → Prop} {m : M Out} {g : Out → M Out} (hm : RetInv C rec In m)
+    (hg : ∀ o, o ≠ .ret → RetInv C rec In (g o))
+    (hret : ∀ c1 o c', g .ret c1 = some (.ok (o, c')) → Rlink C c1 c' ∧ c'.st = c1.st ∧ c'.fr.ret = c1.fr.ret) :
+    RetInv C rec In (m >>= g) := by
+  intro c o c' h
+  obtain ⟨o1, c1, h1, h2⟩ := bind_ok_inv h
+  obtain ⟨l1, hev1⟩ := hm c o1 c1 h1
+  by_cases ho1 : o1 = .ret
+  · subst ho1
+    obtain ⟨l2, hs2, hr2⟩ := hret c1 o c' h2
+    refine ⟨(Rlink_po C).trans _ _ _ l1 l2, fun _ => ?_⟩
+    obtain ⟨e, c0, v, cE, hin, hl0, he, hs, hr⟩ := hev1 rfl
+    exact ⟨e, c0, v, cE, hin, hl0, he, hs2.trans hs, hr2.trans hr⟩
+  · obtain ⟨l2, hev⟩ := hg o1 ho1 c1 o c' h2
+    refine ⟨(Rlink_po C).trans _ _ _ l1 l2, fun ho => ?_⟩
+    obtain ⟨e, c0, v, cE, hin, hl0, he, hs, hr⟩ := hev ho
+    exact ⟨e, c0, v, cE, hin, (Rlink_po C).trans _ _ _ l1 hl0, he, hs, hr⟩
+
+theorem pure_unwind {c1 c' : Cfg} {o o' : Out} (h : (pure o : M Out) c1 = some (.ok (o', c'))) :
+    Rlink C c1 c' ∧ c'.st = c1.st ∧ c'.fr.ret = c1.fr.ret := by
+  have : M.ret' o c1 = some (.ok (o', c')) := h
+  simp [M.ret'] at this
+  rw [← this.2]; exact ⟨(Rlink_po C).refl _, rfl, rfl⟩
+
+end
+
+section
+variable {C : Ctx} {r : Oracle}
+variable (he : ∀ e, Pres Rfr (r.eval e)) (he2 : ∀ e, Pres (RS (Reach C)) (r.eval e))
+variable (hs2 : ∀ s, Pres (RS (Reach C)) (r.exec s))
+variable (hs : ∀ s, RetInv C r (fun t => Occ t s) (r.exec s))
+include he he2 hs2 hs
+
+theorem rl_eval (e : Expr) : Pres (Rlink C) (r.eval e) := rl_of_rfr (he e) (he2 e)
+
+theorem retInv_execList : ∀ l, RetInv C r (fun t => OccB t l) (execList r l)
   | [] => retInv_pure _ (by decide)
   | s :: rest => by
     unfold execList
-    apply retInv_seq (hs s)
+    apply retInv_seq (retInv_weaken (fun t ht => ⟨s, List.mem_cons_self, ht⟩) (hs s))
     · intro o ho
-      cases o <;> first | exact retInv_execList rest | exact retInv_pure _ (by decide) | exact absurd rfl ho
-    · intro c1 o c' h; exact sameSR_pure h
+      cases o <;> first
+        | exact retInv_weaken (fun t ⟨s', hm, ht⟩ => ⟨s', List.mem_cons_of_mem _ hm, ht⟩) (retInv_execList rest)
+        | exact retInv_pure _ (by decide)
+        | exact absurd rfl ho
+    · intro c1 o c' h; exact pure_unwind h
 
-theorem retInv_execBlock (b : Block) : RetInv r (execBlock r b) := by
+theorem retInv_execBlock (b : Block) : RetInv C r (fun t => OccB t b) (execBlock r b) := by
   unfold execBlock
-  apply retInv_bind; intro _
-  apply retInv_seq (retInv_execList hs b)
+  apply retInv_bind rl_pushBlock; intro _
+  apply retInv_seq (retInv_execList he he2 hs2 hs b)
   · intro o ho
-    apply retInv_bind; intro _
-    exact retInv_pure o ho
+    exact retInv_of_link o ho rl_popBlock
   · intro c1 o c' h
     obtain ⟨_, c2, h1, h2⟩ := bind_ok_inv h
+    have hl := rl_popBlock (C := C) c1 _ c2 h1
     rw [popBlock_run c1] at h1
     simp at h1
-    have := sameSR_pure h2
-    rw [← h1] at this
-    exact this
+    obtain ⟨l2, hs', hr'⟩ := pure_unwind (C := C) h2
+    refine ⟨(Rlink_po C).trans _ _ _ hl l2, ?_, ?_⟩
+    · rw [hs', ← h1]
+    · rw [hr', ← h1]
 
-theorem retInv_execElifs : ∀ l els, RetInv r (execElifs r l els)
+/-- the statements of an elif chain with its else part -/
+def InElifs (l : List (Expr × Block)) (els : Option Block) (t : Stmt) : Prop :=
+  (∃ p ∈ l, OccB t p.2) ∨ (∃ b, els = some b ∧ OccB t b)
+
+theorem retInv_execElifs : ∀ l els, RetInv C r (InElifs l els) (execElifs r l els)
   | [], none => retInv_pure _ (by decide)
-  | [], some b => retInv_execBlock hs b
+  | [], some b => retInv_weaken (fun t ht => Or.inr ⟨b, rfl, ht⟩) (retInv_execBlock he he2 hs2 hs b)
   | (c, b) :: rest, els => by
     unfold execElifs
-    apply retInv_bind; intro v
-    apply retInv_bind; intro t
+    apply retInv_bind (rl_eval he he2 hs2 hs c); intro v
+    apply retInv_bind (NL (neutral_asBool v)); intro t
     cases t
-    · exact retInv_execElifs rest els
-    · exact retInv_execBlock hs b
+    · apply retInv_weaken _ (retInv_execElifs rest els)
+      intro t ht
+      rcases ht with ⟨p, hp, ho⟩ | h
+      · exact Or.inl ⟨p, List.mem_cons_of_mem _ hp, ho⟩
+      · exact Or.inr h
+    · exact retInv_weaken (fun t ht => Or.inl ⟨(c, b), List.mem_cons_self, ht⟩) (retInv_execBlock he he2 hs2 hs b)
 
-theorem retInv_forItems (v : String) (body : Block) : ∀ l, RetInv r (forItems r v body l)
+theorem retInv_forItems (v : String) (body : Block) : ∀ l, RetInv C r (fun t => OccB t body) (forItems r v body l)
   | [] => retInv_pure _ (by decide)
   | i :: rest => by
     unfold forItems
-    apply retInv_bind; intro _
-    apply retInv_seq (retInv_execBlock hs body)
+    apply retInv_bind (rl_install _ _); intro _
+    apply retInv_seq (retInv_execBlock he he2 hs2 hs body)
     · intro o ho
       cases o <;> first | exact retInv_forItems v body rest | exact retInv_pure _ (by decide) | exact absurd rfl ho
-    · intro c1 o c' h; exact sameSR_pure h
+    · intro c1 o c' h; exact pure_unwind h
 
-/-- statements that complete normally after a sequence of actions -/
-syntax "ret_normal" : tactic
-macro_rules
-  | `(tactic| ret_normal) => `(tactic| repeat (first | exact retInv_pure _ (by decide) | exact retInv_fail _ | (apply retInv_bind; intro _)))
+theorem rl_evalWhere (wh : Expr) (c : Inst) : Pres (Rlink C) (evalWhere r wh c) := by
+  unfold evalWhere
+  apply pres_bind (Rlink_po C) rl_pushBlock; intro _
+  apply pres_bind (Rlink_po C) (rl_install _ _); intro _
+  apply pres_bind (Rlink_po C) (rl_eval he he2 hs2 hs wh); intro v
+  apply pres_bind (Rlink_po C) rl_popBlock; intro _
+  exact NL (neutral_asBool v)
 
-theorem retInv_execStep (s : Stmt) : RetInv r (execStep C r s) := by
+theorem rl_filterAll (wh : Expr) : ∀ l, Pres (Rlink C) (filterAll r wh l)
+  | [] => NL (neutral_pure _)
+  | c :: rest => by
+    unfold filterAll
+    apply pres_bind (Rlink_po C) (rl_evalWhere he he2 hs2 hs wh c); intro t
+    apply pres_bind (Rlink_po C) (rl_filterAll wh rest); intro _
+    exact NL (neutral_pure _)
+
+theorem rl_filterFirst (wh : Expr) : ∀ l, Pres (Rlink C) (filterFirst r wh l)
+  | [] => NL (neutral_pure _)
+  | c :: rest => by
+    unfold filterFirst
+    apply pres_bind (Rlink_po C) (rl_evalWhere he he2 hs2 hs wh c); intro t
+    cases t
+    · exact rl_filterFirst wh rest
+    · exact NL (neutral_pure _)
+
+theorem rl_selectResult (many : Bool) (cands : List Inst) (wh : Option Expr) :
+    Pres (Rlink C) (selectResult r many cands wh) := by
+  unfold selectResult
+  cases many <;> cases wh <;> simp only
+  · exact NL (neutral_pure _)
+  · apply pres_bind (Rlink_po C) (rl_filterFirst he he2 hs2 hs _ _); intro _; exact NL (neutral_pure _)
+  · exact NL (neutral_pure _)
+  · apply pres_bind (Rlink_po C) (rl_filterAll he he2 hs2 hs _ _); intro _; exact NL (neutral_pure _)
+
+theorem rl_writeField (i : Inst) (name : String) (v : Val) : Pres (Rlink C) (writeField C i name v) := by
+  unfold writeField
+  apply pres_bind (Rlink_po C) (NL neutral_getFr); intro fr
+  cases regHit fr i name
+  · simp only [Bool.false_eq_true, if_false]
+    split
+    · exact NL (neutral_fail _)
+    · exact rl_modifySt (fun _ _ h => (reach_ops C).setAttr trivial h)
+  · exact rl_setRet _
+
+theorem retInv_execStep (s : Stmt) : RetInv C r (fun t => Occ t s) (execStep C r s) := by
+  have E : ∀ e, Pres (Rlink C) (r.eval e) := rl_eval he he2 hs2 hs
   cases s with
-  | assignVar x e => unfold execStep; ret_normal
-  | assignField hx name e => unfold execStep; ret_normal
+  | assignVar x e =>
+    unfold execStep
+    apply retInv_bind (E e); intro _
+    exact retInv_of_link _ (by decide) (rl_install _ _)
+  | assignField hx name e =>
+    unfold execStep
+    apply retInv_bind (E e); intro _
+    apply retInv_bind (E hx); intro v
+    apply retInv_bind (NL (neutral_asInst v)); intro _
+    exact retInv_of_link _ (by decide) (rl_writeField he he2 hs2 hs _ _ _)
   | ifS c thn elifs els =>
     unfold execStep
-    apply retInv_bind; intro v
-    apply retInv_bind; intro t
+    apply retInv_bind (E c); intro v
+    apply retInv_bind (NL (neutral_asBool v)); intro t
     cases t
-    · exact retInv_execElifs hs _ _
-    · exact retInv_execBlock hs _
+    · apply retInv_weaken _ (retInv_execElifs he he2 hs2 hs elifs els)
+      intro t ht
+      rcases ht with ⟨p, hp, s', hs', ho⟩ | ⟨b, rfl, s', hs', ho⟩
+      · exact Occ.ifElif hp hs' ho
+      · exact Occ.ifElse hs' ho
+    · exact retInv_weaken (fun t ⟨s', hs', ho⟩ => Occ.ifThen hs' ho) (retInv_execBlock he he2 hs2 hs thn)
   | whileS c body =>
     unfold execStep
-    apply retInv_bind; intro v
-    apply retInv_bind; intro t
+    apply retInv_bind (E c); intro v
+    apply retInv_bind (NL (neutral_asBool v)); intro t
     cases t
     · exact retInv_pure _ (by decide)
     · simp only [if_true]
-      apply retInv_seq (retInv_execBlock hs body)
+      apply retInv_seq (retInv_weaken (fun t ⟨s', hs', ho⟩ => Occ.whileB hs' ho) (retInv_execBlock he he2 hs2 hs body))
       · intro o ho
         cases o <;> first | exact hs _ | exact retInv_pure _ (by decide) | exact absurd rfl ho
-      · intro c1 o c' h; exact sameSR_pure h
+      · intro c1 o c' h; exact pure_unwind h
   | forEach v setv body =>
     unfold execStep
-    apply retInv_bind; intro s
-    cases s <;> first | exact retInv_forItems hs _ _ _ | exact retInv_fail _
+    apply retInv_bind (NL (neutral_lookupVar C _)); intro s
+    cases s <;> first
+      | exact retInv_weaken (fun t ⟨s', hs', ho⟩ => Occ.forB hs' ho) (retInv_forItems he he2 hs2 hs _ _ _)
+      | exact retInv_fail _
   | brk => exact retInv_pure _ (by decide)
   | cont => exact retInv_pure _ (by decide)
   | stop => exact retInv_pure _ (by decide)
@@ -143,50 +321,111 @@ theorem retInv_execStep (s : Stmt) : RetInv r (execStep C r s) := by
     cases e with
     | none => exact retInv_pure _ (by decide)
     | some e =>
-      intro c o c' h _
+      intro c o c' h
       simp only [execStep] at h
       obtain ⟨v, c1, h1, h2⟩ := bind_ok_inv h
+      have l1 := E e c v c1 h1
       have h3 : (some (Except.ok (Out.ret, { c1 with fr := { c1.fr with ret := v } })) : Res Out) = some (.ok (o, c')) := h2
       simp at h3
-      exact ⟨c', ⟨e, c, v, c1, h1, h3.2.symm⟩, rfl, rfl⟩
+      obtain ⟨_, rfl⟩ := h3
+      refine ⟨⟨l1.1, l1.2⟩, fun _ => ⟨e, c, v, c1, Occ.self, (Rlink_po C).refl _, h1, rfl, rfl⟩⟩
   | create v cls =>
     unfold execStep
-    apply retInv_bind; intro i
-    cases v <;> simp only <;> ret_normal
-  | delete v => unfold execStep; ret_normal
-  | relate a b rel phrase => unfold execStep; ret_normal
-  | relateUsing a b rel phrase u => unfold execStep; ret_normal
-  | unrelate a b rel phrase => unfold execStep; ret_normal
-  | unrelateUsing a b rel phrase u => unfold execStep; ret_normal
-  | selectFrom many v cls wh => unfold execStep; ret_normal
-  | selectRelated many v hx chain wh => unfold execStep; ret_normal
-  | invoke e => unfold execStep; ret_normal
+    apply retInv_bind (rl_modifyGet (fun _ _ _ h => (reach_ops C).newInst h)); intro i
+    cases v with
+    | none =>
+      simp only
+      first
+        | exact retInv_pure _ (by decide)
+        | exact retInv_of_link _ (by decide) (NL (neutral_pure _))
+    | some x => simp only; exact retInv_of_link _ (by decide) (rl_install _ _)
+  | delete v =>
+    unfold execStep
+    apply retInv_bind (NL (neutral_lookupVar C _)); intro x
+    apply retInv_bind (NL (neutral_asInst x)); intro i
+    exact retInv_of_link _ (by decide) (rl_modifySt (fun _ _ h => (reach_ops C).deleteInst h))
+  | relate a b rel phrase =>
+    unfold execStep
+    apply retInv_bind (NL (neutral_lookupVar C _)); intro x
+    apply retInv_bind (NL (neutral_asInst x)); intro _
+    apply retInv_bind (NL (neutral_lookupVar C _)); intro y
+    apply retInv_bind (NL (neutral_asInst y)); intro _
+    exact retInv_of_link _ (by decide) (rl_modifySt (fun _ _ h => (reach_ops C).relate h))
+  | relateUsing a b rel phrase u =>
+    unfold execStep
+    apply retInv_bind (NL (neutral_lookupVar C _)); intro x
+    apply retInv_bind (NL (neutral_asInst x)); intro _
+    apply retInv_bind (NL (neutral_lookupVar C _)); intro y
+    apply retInv_bind (NL (neutral_asInst y)); intro _
+    apply retInv_bind (NL (neutral_lookupVar C _)); intro w
+    apply retInv_bind (NL (neutral_asInst w)); intro _
+    exact retInv_of_link _ (by decide) (rl_modifySt (fun _ _ h => (reach_ops C).relateUsing h))
+  | unrelate a b rel phrase =>
+    unfold execStep
+    apply retInv_bind (NL (neutral_lookupVar C _)); intro x
+    apply retInv_bind (NL (neutral_asInst x)); intro _
+    apply retInv_bind (NL (neutral_lookupVar C _)); intro y
+    apply retInv_bind (NL (neutral_asInst y)); intro _
+    exact retInv_of_link _ (by decide) (rl_modifySt (fun _ _ h => (reach_ops C).unrelate h))
+  | unrelateUsing a b rel phrase u =>
+    unfold execStep
+    apply retInv_bind (NL (neutral_lookupVar C _)); intro x
+    apply retInv_bind (NL (neutral_asInst x)); intro _
+    apply retInv_bind (NL (neutral_lookupVar C _)); intro y
+    apply retInv_bind (NL (neutral_asInst y)); intro _
+    apply retInv_bind (NL (neutral_lookupVar C _)); intro w
+    apply retInv_bind (NL (neutral_asInst w)); intro _
+    exact retInv_of_link _ (by decide) (rl_modifySt (fun _ _ h => (reach_ops C).unrelateUsing h))
+  | selectFrom many v cls wh =>
+    unfold execStep
+    apply retInv_bind (NL (neutral_querySt _)); intro _
+    apply retInv_bind (rl_selectResult he he2 hs2 hs _ _ _); intro _
+    exact retInv_of_link _ (by decide) (rl_install _ _)
+  | selectRelated many v hx chain wh =>
+    unfold execStep
+    apply retInv_bind (E hx); intro hv
+    apply retInv_bind (NL (neutral_startOf hv)); intro _
+    apply retInv_bind (NL (neutral_querySt _)); intro _
+    apply retInv_bind (rl_selectResult he he2 hs2 hs _ _ _); intro _
+    exact retInv_of_link _ (by decide) (rl_install _ _)
+  | invoke e =>
+    unfold execStep
+    exact retInv_of_link _ (by decide) (E e)
 
 end
 
-theorem retEvent_mono {r r' : Oracle} (h : Oracle.le r r') {c1 : Cfg} (he : RetEvent r c1) : RetEvent r' c1 := by
-  obtain ⟨e, c0, v, cE, h1, h2⟩ := he
-  exact ⟨e, c0, v, cE, h.1 e c0 _ h1, h2⟩
+theorem retInv_mono {C : Ctx} {r r' : Oracle} (h : Oracle.le r r') {In : Stmt → Prop} {m : M Out}
+    (hm : RetInv C r In m) : RetInv C r' In m := by
+  intro c o c' hc
+  obtain ⟨hl, hev⟩ := hm c o c' hc
+  refine ⟨hl, fun ho => ?_⟩
+  obtain ⟨e, c0, v, cE, hin, h1, h2, h3, h4⟩ := hev ho
+  exact ⟨e, c0, v, cE, hin, h1, h.1 e c0 _ h2, h3, h4⟩
 
-theorem retInv_mono {r r' : Oracle} (h : Oracle.le r r') {m : M Out} (hm : RetInv r m) : RetInv r' m := by
-  intro c o c' hc hr
-  obtain ⟨c1, he, hs⟩ := hm c o c' hc hr
-  exact ⟨c1, retEvent_mono h he, hs⟩
-
-theorem retInv_run (C : Ctx) : ∀ n s, RetInv (run C n) ((run C n).exec s)
+theorem retInv_run (C : Ctx) : ∀ n s, RetInv C (run C n) (fun t => Occ t s) ((run C n).exec s)
   | 0 => fun _ _ _ _ h => by simp [run] at h
   | n + 1 => fun s =>
-    retInv_mono (run_le_succ C n) (retInv_execStep (C := C) (retInv_run C n) s)
+    retInv_mono (run_le_succ C n)
+      (retInv_execStep (C := C) (rfr_run C n) (reach_run C n).1 (reach_run C n).2 (retInv_run C n) s)
 
-/-- **the result of an invocation is the value of the executed `return <expr>`**, wherever in the body — nested in
-    blocks, if / elif / else, while, for each — that return sits: either the body completed without a value return and
-    the invocation delivers nothing, or some expression was evaluated to exactly the delivered value (and after that
-    evaluation nothing but unwinding happened: same state, same register) -/
+/-- the same for the body of a callable -/
+theorem retInv_body (C : Ctx) (n : Nat) (b : Block) : RetInv C (run C n) (fun t => OccB t b) (execBlock (run C n) b) :=
+  retInv_execBlock (rfr_run C n) (reach_run C n).1 (reach_run C n).2 (retInv_run C n) b
+
+/-- **the result of an invocation is the value of a `return <expr>` of ITS body, evaluated in ITS activation**:
+    either the body completed without a value return and the invocation delivers nothing, or there is a statement
+    `return e` occurring in the body (at any depth: blocks, if / elif / else, while, for each) whose expression was
+    evaluated — in a configuration `c0` of the callee's own activation (its walker kind, its parameters bound by
+    name, its self) whose state is reached from the state at the call by a history of state operations — to exactly
+    the delivered value; after that evaluation nothing but unwinding happened: the state handed back to the caller
+    is the state right after the evaluation. -/
 theorem invoke_delivers_executed_return {C : Ctx} {n : Nat} {kind : WalkerKind} {body : Block}
     {kw : List (String × Val)} {self : Val} {c c2 : Cfg} {v : Val} (hk : NotDerived kind)
     (h : invoke (run C n) kind body kw self c = some (.ok (v, c2))) :
     (v = .none ∧ ∃ o c', execBlock (run C n) body { fr := mkFrame kind kw self, st := c.st } = some (.ok (o, c')) ∧ o ≠ .ret) ∨
-    (∃ e c0 cE c', (run C n).eval e c0 = some (.ok (v, cE)) ∧
+    (∃ e c0 cE c', OccB (.ret (some e)) body ∧
+        c0.fr.kind = kind ∧ c0.fr.params = paramsOf kw ∧ c0.fr.self = self ∧ Reach C c.st c0.st ∧
+        (run C n).eval e c0 = some (.ok (v, cE)) ∧
         execBlock (run C n) body { fr := mkFrame kind kw self, st := c.st } = some (.ok (.ret, c')) ∧
         c'.st = cE.st ∧ c2.st = cE.st) := by
   obtain ⟨c', hrb, hv', hc2⟩ := invoke_ok_inv h
@@ -201,13 +440,11 @@ theorem invoke_delivers_executed_return {C : Ctx} {n : Nat} {kind : WalkerKind} 
   by_cases ho : o = .ret
   · subst ho
     right
-    have hinv := retInv_execBlock (retInv_run C n) body _ .ret c' hb rfl
-    obtain ⟨ce, ⟨e, c0, w, cE, hev, hce⟩, hs1, hs2⟩ := hinv
-    have hvw : v = w := by rw [hv', hs2, hce]
+    obtain ⟨_, hev⟩ := retInv_body C n body _ .ret c' hb
+    obtain ⟨e, c0, w, cE, hin, hl, hev', hs1, hs2⟩ := hev rfl
+    have hvw : v = w := by rw [hv', hs2]
     subst hvw
-    refine ⟨e, c0, cE, c', hev, hb, ?_, ?_⟩
-    · rw [hs1, hce]
-    · rw [hc2]; show c'.st = cE.st; rw [hs1, hce]
+    exact ⟨e, c0, cE, c', hin, hl.1.1, hl.1.2.1, hl.1.2.2, hl.2, hev', hb, hs1, by rw [hc2]; exact hs1⟩
   · left
     have hp := presRet_execBlock (rfr_run C n) (presRet_run C n) body _ o c' hb hk
     exact ⟨by rw [hv', hp.2 ho]; rfl, o, c', hb, ho⟩
